@@ -187,9 +187,17 @@ def watermarks_spec(hs):
                                                z3.ForAll([t], z3.Implies(z3.Select(IM.ikeys(z3.Select(d.inner, m0(term[i]))), t),
                                                                          lo(term[i]) <= t))))),
               z3.ForAll([i, j], z3.Implies(z3.And(0 <= i, i < j, j < nn), m0(term[i]) != m0(term[j])))]
-    for f in facts(s.term):
+    keys_now = d.keys
+
+    def complete(term):
+      # ... and every metric that holds datapoints is listed (index witness; invariant under permutation)
+      at = z3.Function(ip.ctx.fresh_name('watermark_index'), Atom, z3.IntSort())
+      mm = z3.Const('m?', Atom)
+      return [z3.ForAll([mm], z3.Implies(z3.Select(keys_now, mm),
+                                         z3.And(0 <= at(mm), at(mm) < z3.Length(term), m0(term[at(mm)]) == mm)))]
+    for f in facts(s.term) + complete(s.term):
       ip.ctx.assume(f)
-    s.perm_facts = [facts]
+    s.perm_facts = [facts, complete]
     return s
   return Spec(C + ':_MetricCache.watermarks', apply)
 
@@ -272,7 +280,15 @@ def u_generator(cls_name, kind):
     def on_yield(ip2, v, fr):
       ctx.cover('%s/yield' % kind)
       if v is None:
-        ctx.check('C17/%s/None_only_when_nothing_is_eligible' % cls_name, z3.BoolVal(kind == 'timesorted'))
+        # "nothing to do" is only an answer for timesorted with a lag set, and only when no cached
+        # metric's oldest datapoint was older than the lag when the snapshot was taken (no
+        # interference since: the generator has not been suspended in between)
+        if kind != 'timesorted' or 't' not in fr.locals:
+          ctx.check('C17/%s/None_only_when_nothing_is_eligible' % cls_name, z3.BoolVal(False))
+        else:
+          anym = ctx.fresh(Atom, 'any_cached_metric')
+          ctx.check('C17/%s/None_only_when_nothing_is_eligible' % cls_name,
+                    z3.And(lag != 0, z3.Implies(z3.Select(d.keys, anym), z3.Not(fr['t'] - OLDEST(anym) > lag))))
         hs.rely(ip2, None)
         return
       # interface contract of choose_item
@@ -296,7 +312,9 @@ def u_generator(cls_name, kind):
     except PyRaise as e:
       ctx.check('C17/%s/no_raise' % cls_name, z3.BoolVal(False))
     ctx.cover('%s/ends' % kind)
-  return Unit('cache.%s._generate_queue' % cls_name, run, [Q], expect_covers=['%s/yield' % kind])
+  return Unit('cache.%s._generate_queue' % cls_name, run, [Q], expect_covers=['%s/yield' % kind],
+              replay=CU.replay_cache('drain', [kind]),
+              native_clauses=['C17/%s/None_only_when_nothing_is_eligible' % cls_name, 'C17/%s/choose_in_cache' % cls_name])
 
 
 def u_select_strategy(ctx, index):
